@@ -85,7 +85,12 @@ Fixpoint wls_loop (h : Q -> Q) (z : Q) (x : Q) (r_stored : Q) (steps : list Q) :
   | d :: rest => wls_loop h z (qadd x d) (qsub z (h x)) rest
   end.
 Definition final_state (h : Q -> Q) (z x0 : Q) (steps : list Q) : Q := fst (wls_loop h z x0 0 steps).
-Definition stored_residual (h : Q -> Q) (z x0 : Q) (steps : list Q) : Q := snd (wls_loop h z x0 0 steps).
+(* before the repair "fix: WLS state estimation stores residual, Jacobian and gain matrix of the returned state":
+   self.r = the r of the last pass *)
+Definition stored_residual_old (h : Q -> Q) (z x0 : Q) (steps : list Q) : Q := snd (wls_loop h z x0 0 steps).
+(* after the repair (base.py: r = create_rx(eppci.E) once more after the loop): the loop's r is discarded *)
+Definition stored_residual (h : Q -> Q) (z x0 : Q) (steps : list Q) : Q :=
+  let '(x, _) := wls_loop h z x0 0 steps in qsub z (h x).
 (* guard: the last increment is exactly zero (the loop ran one more pass after reaching the solution) *)
 Definition G19_last_step_zero (steps : list Q) : bool := match rev steps with d :: _ => qeqb d 0 | [] => false end.
 
